@@ -171,7 +171,7 @@ def judge(ctx, text, meta, eol, fix, mode, nperturbed, sigs):
         ctx.count('repairs-checked')
         ctx.count('perturbed-counters', nperturbed or 0)
         rc_out = RE.recount([(sid, [c[0] if len(c) == 1 else sub_t.join(c) for c in els]) for sid, els in n_out])
-        left = [m for m in rc_out.must if m[2] in ('4', '5', '021', 'HL1')]
+        left = [m for m in rc_out.must if (m[1], m[2]) in (('st', '4'), ('gs', '5'), ('isa', '021'), ('seg', 'HL1'))]      # (gs 4 is an id mismatch, not a count)
         if left:
             ctx.viol('norm:counts-not-repaired:%s' % ','.join(sorted(set('%s/%s' % (m[1], m[2]) for m in left))), 'after --fixcounting the recount still finds count/sequence defects', case,
                      {'left': left[:6], 'out_tail': got[-300:]})
